@@ -18,6 +18,7 @@ mod c11;
 mod c18;
 mod c08;
 mod c14;
+mod c06;
 
 use ctx::{Ctx, Tier};
 
@@ -82,6 +83,8 @@ fn main() {
         "C08" => c08::run(&mut ctx),
         "C14" => c14::run(&mut ctx),
         "C17" => c17::run(&mut ctx),
+        "C06" => c06::run(&mut ctx, c06::Profile::C06),
+        "C12" => c06::run(&mut ctx, c06::Profile::C12),
         _ => {
             eprintln!("unknown property {}", prop);
             std::process::exit(2);
